@@ -40,7 +40,7 @@ def floatDen (b : Bytes) : Nat := 10 ^ (floatFrac b).length
 def dist (a b : Nat) : Nat := (a - b) + (b - a)
 
 /-- |num/den − value(n)| up to the common positive factor `den · 2^1074` -/
-def distTo (num den n : Nat) : Nat := dist (num * 2 ^ 1074) (scaled n * den)
+def distTo (num den n : Nat) : Nat := dist (2 ^ 1074 * num) (scaled n * den)
 
 /-- no neighbour is closer; a neighbour equally close ⇒ `n` has an even mantissa (`n` even).
     Exponent range unbounded above (see `F64.scaled`). -/
@@ -64,7 +64,7 @@ instance (neg : Bool) (num den bits : Nat) : Decidable (IsNearestBits neg num de
 
 /-- `num/den` is at or above the midpoint of the largest finite double and 2^1024 (it rounds out of range) -/
 def Overflows (num den : Nat) : Bool :=
-  decide ((scaled (infOrd - 1) + scaled infOrd) * den ≤ 2 * (num * 2 ^ 1074))
+  decide ((scaled (infOrd - 1) + scaled infOrd) * den ≤ 2 * (2 ^ 1074 * num))
 
 /-! ## monitor: `float read <text>  =>  ok <bits> | err` -/
 
@@ -121,11 +121,11 @@ def monFloatWrite (bits : Nat) (obs : List String) : List String :=
            if decide (Nearest (D / 10 * 10 ^ (r + 1)) den n) || decide (Nearest ((D / 10 + 1) * 10 ^ (r + 1)) den n)
            then ["float_write_not_shortest"] else []) ++
         (if D = 0 then [] else
-           let d0 := dist (D * 10 ^ r * 2 ^ 1074) (scaled n * den)
+           let d0 := dist (2 ^ 1074 * (D * 10 ^ r)) (scaled n * den)
            -- a text of as many digits that ALSO reads back to the value and is strictly closer to it
            -- (the interval of texts reading back is not symmetric around a power of two: a closer text may not read back)
-           if (dist ((D + 1) * 10 ^ r * 2 ^ 1074) (scaled n * den) < d0 && decide (Nearest ((D + 1) * 10 ^ r) den n))
-              || (dist ((D - 1) * 10 ^ r * 2 ^ 1074) (scaled n * den) < d0 && decide (Nearest ((D - 1) * 10 ^ r) den n))
+           if (dist (2 ^ 1074 * ((D + 1) * 10 ^ r)) (scaled n * den) < d0 && decide (Nearest ((D + 1) * 10 ^ r) den n))
+              || (dist (2 ^ 1074 * ((D - 1) * 10 ^ r)) (scaled n * den) < d0 && decide (Nearest ((D - 1) * 10 ^ r) den n))
            then ["float_write_not_closest"] else []))
   | _ => ["unparsed_observation"]
 
